@@ -158,6 +158,9 @@ class C11(CheckBase):
             stride = 1 if (ctx.tier == 'thorough' or length <= 768) else (length + 255) // 256
             out.probe('enumerated-every-offset-streams' if stride == 1 else 'enumerated-strided-streams')
             for k in range(0, length, stride):
+                if ctx.expired():
+                    out.probe('enumeration-cut-short')
+                    break
                 f2 = dict(flt, k={'abs': k}, target=target)
                 self.one_fault(ctx, out, case, dict(atom, fault=f2), f2, target, ref, length)
         else:
